@@ -125,7 +125,7 @@ theorem sign_verifies_sub (K : CurveOk p C) (h34 : p % 4 = 3) (prm : Params) (fu
   exact (verify_eq_true_iff prm _ _ _).2 (Schnorr.sign_verifies L prm L.ycongr fuel msg q aux sg h)
 
 /-- **C03-T2 over `opsSub K`**: `verify_` answers true exactly when BIP340's Verify does -/
-theorem verify_iff_ec (K : CurveOk p C) (h34 : p % 4 = 3) (prm : Params) (msg : Bytes) (xQ : ℤ) (sg : Sig) :
+theorem verify_iff_sub (K : CurveOk p C) (h34 : p % 4 = 3) (prm : Params) (msg : Bytes) (xQ : ℤ) (sg : Sig) :
     Schnorr.verify (opsSub K) prm msg xQ sg = true ↔
       0 ≤ sg.r ∧ sg.r < C.p ∧ 0 ≤ sg.s ∧ sg.s < C.n ∧
       ∃ Q, (opsSub K).liftX xQ = some Q ∧
@@ -139,13 +139,13 @@ theorem verify_iff_ec (K : CurveOk p C) (h34 : p % 4 = 3) (prm : Params) (msg : 
   Schnorr.verify_iff (lawful_ec K h34) prm (lawful_ec K h34).ycongr msg xQ sg
 
 /-- **C03-T3 over `opsSub K`** -/
-theorem batch_complete_ec (K : CurveOk p C) (h34 : p % 4 = 3) (prm : Params) (coef : ℕ → ℤ) (items : List Item)
+theorem batch_complete_sub (K : CurveOk p C) (h34 : p % 4 = 3) (prm : Params) (coef : ℕ → ℤ) (items : List Item)
     (hne : items ≠ []) (hall : ∀ it ∈ items, Schnorr.verify (opsSub K) prm it.msg it.xQ it.sg = true) :
     batchVerify (opsSub K) prm coef items = true :=
   (batchVerify_eq_true_iff prm coef items).2 (Schnorr.batch_complete (lawful_ec K h34) prm coef items hne hall)
 
 /-- **C03-T4 over `opsSub K`**, one bad member -/
-theorem batch_one_bad_fails_ec (K : CurveOk p C) (h34 : p % 4 = 3) (prm : Params) (coef : ℕ → ℤ) (it0 it1 : Item)
+theorem batch_one_bad_fails_sub (K : CurveOk p C) (h34 : p % 4 = 3) (prm : Params) (coef : ℕ → ℤ) (it0 it1 : Item)
     (rest : List Item) (j : ℕ) (bad : Item)
     (hj : (it0 :: it1 :: rest)[j]? = some bad)
     (hbad : Schnorr.verify (opsSub K) prm bad.msg bad.xQ bad.sg = false)
@@ -164,18 +164,12 @@ end
 /-! ## transfer to the raw pairs of `Btc.EC.ops C` under cofactor one
 
 `opsSub K` differs from `Btc.EC.ops C` only in `lift_x`.  `hL` says the filter never fires; it follows from the
-cofactor-one hypothesis `hcof : ∀ g, n • g = 0` and `Δ ≠ 0` (`liftAgree03`, C01's `liftXSub_val_of_cofactor_one`).
+cofactor-one hypothesis `hcof : ∀ g, n • g = 0` and `Δ ≠ 0` (`Btc.E2E.liftAgree_of_cofactor_one`).
 Under it every run of verify / batch over `opsSub K` IS the run over `Btc.EC.ops C`, refusal classes included. -/
 section Transfer
 variable {p : ℕ} [Fact p.Prime] {C : Curve}
 
-theorem liftAgree03 (K : CurveOk p C) (h34 : p % 4 = 3)
-    (hcof : ∀ g : Pt p C.toCurveGroup, C.n • g = 0)
-    (hΔ : (curveOf p C.toCurveGroup).toAffine.Δ ≠ 0) :
-    ∀ x : ℤ, ((opsSub K).liftX x).map Subtype.val = (EC.ops C).liftX x :=
-  fun x => liftXSub_val_of_cofactor_one K h34 hcof hΔ x
-
-variable (K : CurveOk p C) (hL : ∀ x : ℤ, ((opsSub K).liftX x).map Subtype.val = (EC.ops C).liftX x)
+variable (K : CurveOk p C) (hL : LiftAgree K)
 include hL
 
 theorem isXCoord_eq (x : ℤ) : isXCoord (opsSub K) x = isXCoord (EC.ops C) x := by
@@ -296,7 +290,7 @@ theorem batchVerify_eq (prm : Params) (coef : ℕ → ℤ) (items : List Item) :
   rw [assertBatch_eq K hL]
 
 /-- **C03-T2 on the raw pairs of `Btc.EC.ops C`** (cofactor one) -/
-theorem verify_iff_raw (h34 : p % 4 = 3) (prm : Params) (msg : Bytes) (xQ : ℤ) (sg : Sig) :
+theorem verify_iff_cofactor_one (h34 : p % 4 = 3) (prm : Params) (msg : Bytes) (xQ : ℤ) (sg : Sig) :
     Schnorr.verify (EC.ops C) prm msg xQ sg = true ↔
       0 ≤ sg.r ∧ sg.r < C.p ∧ 0 ≤ sg.s ∧ sg.s < C.n ∧
       ∃ Q : Point, (EC.ops C).liftX xQ = some Q ∧
@@ -307,7 +301,7 @@ theorem verify_iff_raw (h34 : p % 4 = 3) (prm : Params) (msg : Bytes) (xQ : ℤ)
           ((EC.ops C).mul (challengeInt (EC.ops C) prm msg xQ sg.r) Q)) = true ∧
         (EC.ops C).x ((EC.ops C).sub ((EC.ops C).mul sg.s C.G)
           ((EC.ops C).mul (challengeInt (EC.ops C) prm msg xQ sg.r) Q)) = sg.r := by
-  rw [← verify_eq K hL, verify_iff_ec K h34]
+  rw [← verify_eq K hL, verify_iff_sub K h34]
   constructor
   · rintro ⟨h1, h2, h3, h4, Q, hQ, hrest⟩
     exact ⟨h1, h2, h3, h4, Q.1, opsSub_liftX K hQ, hrest⟩
@@ -317,13 +311,13 @@ theorem verify_iff_raw (h34 : p % 4 = 3) (prm : Params) (msg : Bytes) (xQ : ℤ)
     obtain ⟨Q', hQ', rfl⟩ := Option.map_eq_some_iff.mp h
     exact ⟨h1, h2, h3, h4, Q', hQ', hrest⟩
 
-theorem batch_complete_raw (h34 : p % 4 = 3) (prm : Params) (coef : ℕ → ℤ) (items : List Item)
+theorem batch_complete_cofactor_one (h34 : p % 4 = 3) (prm : Params) (coef : ℕ → ℤ) (items : List Item)
     (hne : items ≠ []) (hall : ∀ it ∈ items, Schnorr.verify (EC.ops C) prm it.msg it.xQ it.sg = true) :
     batchVerify (EC.ops C) prm coef items = true := by
   rw [← batchVerify_eq K hL]
-  exact batch_complete_ec K h34 prm coef items hne (fun it hit => by rw [verify_eq K hL]; exact hall it hit)
+  exact batch_complete_sub K h34 prm coef items hne (fun it hit => by rw [verify_eq K hL]; exact hall it hit)
 
-theorem batch_one_bad_fails_raw (h34 : p % 4 = 3) (prm : Params) (coef : ℕ → ℤ) (it0 it1 : Item)
+theorem batch_one_bad_fails_cofactor_one (h34 : p % 4 = 3) (prm : Params) (coef : ℕ → ℤ) (it0 it1 : Item)
     (rest : List Item) (j : ℕ) (bad : Item)
     (hj : (it0 :: it1 :: rest)[j]? = some bad)
     (hbad : Schnorr.verify (EC.ops C) prm bad.msg bad.xQ bad.sg = false)
@@ -332,10 +326,10 @@ theorem batch_one_bad_fails_raw (h34 : p % 4 = 3) (prm : Params) (coef : ℕ →
     (hcoef : ¬ C.n ∣ coefAt coef j) :
     batchVerify (EC.ops C) prm coef (it0 :: it1 :: rest) = false := by
   rw [← batchVerify_eq K hL]
-  exact batch_one_bad_fails_ec K h34 prm coef it0 it1 rest j bad hj (by rw [verify_eq K hL]; exact hbad)
+  exact batch_one_bad_fails_sub K h34 prm coef it0 it1 rest j bad hj (by rw [verify_eq K hL]; exact hbad)
     (fun k it' hk hne => by rw [verify_eq K hL]; exact hothers k it' hk hne) hcoef
 
-theorem batch_at_most_one_coeff_raw (h34 : p % 4 = 3) (prm : Params) (coef coef' : ℕ → ℤ) (it0 it1 : Item)
+theorem batch_at_most_one_coeff_cofactor_one (h34 : p % 4 = 3) (prm : Params) (coef coef' : ℕ → ℤ) (it0 it1 : Item)
     (rest : List Item) (j : ℕ) (bad : Item) (hj1 : 1 ≤ j)
     (hj : (it0 :: it1 :: rest)[j]? = some bad)
     (hbad : Schnorr.verify (EC.ops C) prm bad.msg bad.xQ bad.sg = false)
@@ -364,14 +358,14 @@ theorem secp_delta_ne_zero_c03 : (curveOf secp256k1_p secp256k1.toCurveGroup).to
   have hp : 21168 < secp256k1_p := by decide +kernel
   omega
 
-/-- under the ONE remaining assumption about secp256k1 — its group has cofactor one (every point of the curve has
-    order dividing `n`; not proved: Mathlib has no point count / Hasse bound), spelled out at every use so that no shared
-    name is needed — the restricted `lift_x` is the executed one -/
-theorem secp_liftAgree03 (hcof : ∀ g : SecpGroup, secp256k1.n • g = 0) :
-    ∀ x : ℤ, (secpOps.liftX x).map Subtype.val = (EC.ops secp256k1).liftX x :=
-  @liftAgree03 secp256k1_p ⟨secp256k1_p_prime⟩ secp256k1 secpOk secp256k1_h34 hcof secp_delta_ne_zero_c03
+/-- under the ONE remaining assumption about secp256k1, `Btc.E2E.SecpCofactorOne` (every point of the curve has order
+    dividing `n`; not proved: Mathlib has no point count / Hasse bound), the restricted `lift_x` is the executed one -/
+theorem secp_liftAgree03 (hcof : SecpCofactorOne) : LiftAgree secpOk :=
+  @liftAgree_of_cofactor_one secp256k1_p ⟨secp256k1_p_prime⟩ secp256k1 secpOk secp256k1_h34 hcof secp_delta_ne_zero_c03
 
-/-! ## secp256k1: no assumption (primality of `p`, `n`: `secp256k1_p_prime`, `secp256k1_n_prime`, Pratt certificates) -/
+/-! ## secp256k1, T1 only: no assumption about the curve (primality of `p`, `n`: Pratt certificates).
+T2–T4 on secp256k1 are the `_cofactor_one` theorems above at `secpOk` with `secp_liftAgree03 hcof`
+(`hcof : SecpCofactorOne`): see `Props/C03.lean`. -/
 
 theorem sign_verifies_secp256k1 (prm : Params)
     (fuel : ℕ) (msg : Bytes) (q : ℤ) (aux : Bytes) (sg : Sig)
@@ -388,37 +382,6 @@ theorem verify_secpOps_imp (prm : Params)
     (msg : Bytes) (xQ : ℤ) (sg : Sig) (h : Schnorr.verify secpOps prm msg xQ sg = true) :
     Schnorr.verify (EC.ops secp256k1) prm msg xQ sg = true :=
   @verify_opsSub_imp secp256k1_p ⟨secp256k1_p_prime⟩ secp256k1 secpOk prm msg xQ sg h
-
-theorem verify_iff_secp256k1 (prm : Params)
-    (msg : Bytes) (xQ : ℤ) (sg : Sig) :
-    Schnorr.verify secpOps prm msg xQ sg = true ↔
-      0 ≤ sg.r ∧ sg.r < secp256k1.p ∧ 0 ≤ sg.s ∧ sg.s < secp256k1.n ∧
-      ∃ Q, secpOps.liftX xQ = some Q ∧
-        challengeInt (EC.ops secp256k1) prm msg xQ sg.r ≠ 0 ∧
-        (EC.ops secp256k1).isZero ((EC.ops secp256k1).sub ((EC.ops secp256k1).mul sg.s secp256k1.G)
-          ((EC.ops secp256k1).mul (challengeInt (EC.ops secp256k1) prm msg xQ sg.r) Q.1)) = false ∧
-        (EC.ops secp256k1).hasEvenY ((EC.ops secp256k1).sub ((EC.ops secp256k1).mul sg.s secp256k1.G)
-          ((EC.ops secp256k1).mul (challengeInt (EC.ops secp256k1) prm msg xQ sg.r) Q.1)) = true ∧
-        (EC.ops secp256k1).x ((EC.ops secp256k1).sub ((EC.ops secp256k1).mul sg.s secp256k1.G)
-          ((EC.ops secp256k1).mul (challengeInt (EC.ops secp256k1) prm msg xQ sg.r) Q.1)) = sg.r :=
-  @verify_iff_ec secp256k1_p ⟨secp256k1_p_prime⟩ secp256k1 secpOk secp256k1_h34 prm msg xQ sg
-
-theorem batch_complete_secp256k1 (prm : Params)
-    (coef : ℕ → ℤ) (items : List Item) (hne : items ≠ [])
-    (hall : ∀ it ∈ items, Schnorr.verify secpOps prm it.msg it.xQ it.sg = true) :
-    batchVerify secpOps prm coef items = true :=
-  @batch_complete_ec secp256k1_p ⟨secp256k1_p_prime⟩ secp256k1 secpOk secp256k1_h34 prm coef items hne hall
-
-theorem batch_one_bad_fails_secp256k1 (prm : Params)
-    (coef : ℕ → ℤ) (it0 it1 : Item) (rest : List Item) (j : ℕ) (bad : Item)
-    (hj : (it0 :: it1 :: rest)[j]? = some bad)
-    (hbad : Schnorr.verify secpOps prm bad.msg bad.xQ bad.sg = false)
-    (hothers : ∀ k it', (it0 :: it1 :: rest)[k]? = some it' → k ≠ j →
-      Schnorr.verify secpOps prm it'.msg it'.xQ it'.sg = true)
-    (hcoef : ¬ secp256k1.n ∣ coefAt coef j) :
-    batchVerify secpOps prm coef (it0 :: it1 :: rest) = false :=
-  @batch_one_bad_fails_ec secp256k1_p ⟨secp256k1_p_prime⟩ secp256k1 secpOk secp256k1_h34 prm coef it0 it1 rest j bad hj
-    hbad hothers hcoef
 
 /-! ## the toy curve: actual runs, no hypothesis at all -/
 
@@ -439,7 +402,7 @@ theorem toy_schnorr_verifies : Schnorr.verify (EC.ops toyC) toyPrm [1, 2] 35 ⟨
 /-- a two-member batch of honest signatures passes for every coefficient function -/
 theorem toy_batch (coef : ℕ → ℤ) :
     batchVerify (opsSub toyOk) toyPrm coef [⟨[1, 2], 35, ⟨2, 19⟩⟩, ⟨[9], 21, ⟨29, 5⟩⟩] = true := by
-  apply batch_complete_ec toyOk (by decide) toyPrm coef _ (by simp)
+  apply batch_complete_sub toyOk (by decide) toyPrm coef _ (by simp)
   intro it hit
   simp only [List.mem_cons, List.not_mem_nil, or_false] at hit
   rcases hit with rfl | rfl
@@ -447,5 +410,55 @@ theorem toy_batch (coef : ℕ → ℤ) :
     rwa [toy_x3] at this
   · have := sign_verifies_sub toyOk (by decide) toyPrm 5 [9] 4 [7] _ toy_schnorr_sign2
     rwa [toy_x4] at this
+
+/-! ### fully discharged `_cofactor_one` instances: `hcof` is PROVED for the toy curve (`Btc.C01.Toy.toy_hcof`), so T2–T4
+about the raw, executed `Btc.EC.ops toyC` hold with no hypothesis left -/
+
+theorem toy_liftAgree : LiftAgree toyOk :=
+  liftAgree_of_cofactor_one toyOk (by decide) Btc.C01.Toy.toy_hcof Btc.C01.Toy.toy_delta
+
+theorem toy_schnorr_verifies2 : Schnorr.verify (EC.ops toyC) toyPrm [9] 21 ⟨29, 5⟩ = true := by
+  have := sign_verifies_ec toyOk (by decide) toyPrm 5 [9] 4 [7] _ toy_schnorr_sign2
+  rwa [toy_x4] at this
+
+/-- T3 on `Btc.EC.ops toyC`: the honest two-member batch passes for every coefficient function -/
+theorem toy_batch_raw (coef : ℕ → ℤ) :
+    batchVerify (EC.ops toyC) toyPrm coef [⟨[1, 2], 35, ⟨2, 19⟩⟩, ⟨[9], 21, ⟨29, 5⟩⟩] = true := by
+  apply batch_complete_cofactor_one toyOk toy_liftAgree (by decide) toyPrm coef _ (by simp)
+  intro it hit
+  simp only [List.mem_cons, List.not_mem_nil, or_false] at hit
+  rcases hit with rfl | rfl
+  · exact toy_schnorr_verifies
+  · exact toy_schnorr_verifies2
+
+theorem toy_bad_member : Schnorr.verify (EC.ops toyC) toyPrm [9] 21 ⟨29, 6⟩ = false := by decide +kernel
+
+/-- T4 on `Btc.EC.ops toyC`: with the second member tampered (`s + 1`) the batch fails for EVERY coefficient the code can
+    draw (`1..n-1`), by theorem — not by running the 30 cases -/
+theorem toy_batch_bad_raw (coef : ℕ → ℤ) (h : 0 < coef 1 ∧ coef 1 < 31) :
+    batchVerify (EC.ops toyC) toyPrm coef [⟨[1, 2], 35, ⟨2, 19⟩⟩, ⟨[9], 21, ⟨29, 6⟩⟩] = false := by
+  apply batch_one_bad_fails_cofactor_one toyOk toy_liftAgree (by decide) toyPrm coef _ _ [] 1 ⟨[9], 21, ⟨29, 6⟩⟩ rfl
+    toy_bad_member
+  · intro k it' hk hne
+    match k, hk, hne with
+    | 0, hk, _ =>
+      simp only [List.getElem?_cons_zero, Option.some.injEq] at hk
+      subst hk; exact toy_schnorr_verifies
+    | 1, _, hne => exact absurd rfl hne
+    | k + 2, hk, _ => simp at hk
+  · show ¬ (31 : ℤ) ∣ coefAt coef 1
+    simp only [coefAt]
+    intro hd
+    have := Int.le_of_dvd h.1 (by simpa using hd)
+    omega
+
+/-- T2 on `Btc.EC.ops toyC`: the accepted triple satisfies BIP340's equation, read off the theorem -/
+theorem toy_verify_equation :
+    ∃ Q : Point, (EC.ops toyC).liftX 35 = some Q ∧
+      (EC.ops toyC).x ((EC.ops toyC).sub ((EC.ops toyC).mul 19 toyC.G)
+        ((EC.ops toyC).mul (challengeInt (EC.ops toyC) toyPrm [1, 2] 35 2) Q)) = 2 := by
+  obtain ⟨_, _, _, _, Q, hQ, _, _, _, hx⟩ :=
+    (verify_iff_cofactor_one toyOk toy_liftAgree (by decide) toyPrm [1, 2] 35 ⟨2, 19⟩).1 toy_schnorr_verifies
+  exact ⟨Q, hQ, hx⟩
 
 end Btc.E2E
